@@ -370,9 +370,11 @@ def _collect_bound_values(
         if isinstance(node, GraphNode):
             # Get bound values from the inner graph
             inner_bound = node.graph.inputs.bound
-            # Merge into all_bound (current graph's values take precedence)
-            for key, value in inner_bound.items():
-                if key not in all_bound:
-                    all_bound[key] = value
+            # Merge into all_bound (current graph's values take precedence),
+            # keyed by the wrapper's external input names
+            for external in node.inputs:
+                original = node._resolve_original_input_name(external)
+                if original in inner_bound and external not in all_bound:
+                    all_bound[external] = inner_bound[original]
 
     return all_bound
